@@ -295,3 +295,12 @@ Proof.
   pose proof (pd_loop_len _ _ _ _ _ Hok2 H) as Hlen.
   pose proof (pd_loop_out_bound _ _ _ _ _ _ Hok2 H) as Hb. unfold len in *. lia.
 Qed.
+
+(* ---------------------------------------------------------------- re-exported by Properties/C53.v *)
+Theorem c53_delta_total : forall bb src d,
+  patch_delta src d <> Err EFuel /\ patch_delta_wrapper src d <> Err EFuel /\
+  reader_from_delta src d <> Err EFuel /\ patch_delta_writer bb src d <> Err EFuel.
+Proof.
+  intros. repeat split;
+    [apply patch_delta_total|apply patch_delta_wrapper_total|apply reader_from_delta_total|apply patch_delta_writer_total].
+Qed.
